@@ -269,7 +269,7 @@ theorem dynamic_roundtrip {α : Type} (ops : List NameOp) (hops : opsOK ops Gen.
 
 /-- the **regenerated** operations of `ClusterManagerConfig.MarshalJSON` and `RouterConfiguration.MarshalJSON` are such
 operations: truncation to `MaxFilePath`, then the separator and the NUL replacement, then the extension, then
-`uniqueFileName`; and they read the clock only for an empty name (`stampFirst`) -/
+`uniqueFileName`, then the in-use mark `delete(allFiles, fileName)` on the final name; and they read the clock only for an empty name (`stampFirst`) -/
 theorem regenerated_name_ops_ok :
     opsOK Gen.ConfigDir.clusterNameOps Gen.ConfigDir.readExt = true ∧
     opsOK Gen.ConfigDir.vhostNameOps Gen.ConfigDir.readExt = true := by decide +kernel
@@ -399,12 +399,20 @@ theorem dump_idempotent_regenerated {α : Type} (enc : α → Json) (nameOf : α
       d cs hnames⟩
 
 /-- non-vacuity: `svc/v1`, `svc_v1` dumped twice over a stray file — the second dump keeps `svc_v1_1.json`; an
-in-use mark taken BEFORE `uniqueFileName` would lose it (that variant is not expressible in `NameOp`: the extractor
-requires `delete(allFiles, fileName)` after the last assignment) -/
+in-use mark taken BEFORE `uniqueFileName` (second example: not `opsOK`) loses it on the second dump, and the item with
+it: the first dump is fine, which is why a single dump → reload cycle cannot show it -/
 example : (match dumps Gen.ConfigDir.vhostNameOps (fun _ : Bytes => Json.null) id
       [[115, 47, 118], [115, 95, 118]] [fun _ => [49], fun _ => [50]] [([120], .junk)] with
     | some d => d.map (·.1) | none => []) =
     [[115, 95, 118, 95, 49, 46, 106, 115, 111, 110], [115, 95, 118, 46, 106, 115, 111, 110]] := by decide +kernel
+example : opsOK [.orStamp, .truncate 128 128, .replaceAll 47 [95], .append [46, 106, 115, 111, 110], .mark, .unique]
+      Gen.ConfigDir.readExt = false ∧
+    (fun k => match dumps [.orStamp, .truncate 128 128, .replaceAll 47 [95], .append [46, 106, 115, 111, 110], .mark, .unique]
+        (fun _ : Bytes => Json.null) id [[115, 47, 118], [115, 95, 118]] (List.replicate k (fun _ => [49])) [([120], .junk)] with
+      | some d => d.length | none => 0) 1 = 2 ∧
+    (fun k => match dumps [.orStamp, .truncate 128 128, .replaceAll 47 [95], .append [46, 106, 115, 111, 110], .mark, .unique]
+        (fun _ : Bytes => Json.null) id [[115, 47, 118], [115, 95, 118]] (List.replicate k (fun _ => [49])) [([120], .junk)] with
+      | some d => d.length | none => 0) 2 = 1 := by decide +kernel
 
 /-- **unique_file_name**: `uniqueFileName` never returns a name already written by this dump (its loop ends within
 `|written| + 1` rounds), and leaves a free name alone -/
@@ -428,7 +436,7 @@ example : (match marshalDynamic Gen.ConfigDir.clusterNameOps (fun _ : Bytes => J
 
 /-- the operations BEFORE the repair (commit a55302045): no `uniqueFileName` — `a/b` and `a_b` (likewise two names with a
 common prefix of `MaxFilePath` bytes) went to one file and one item was lost: a defect of the unchanged tree, repaired -/
-example : (match marshalDynamic [.orStamp, .truncate 128 128, .replaceAll 47 [95], .append [46, 106, 115, 111, 110]]
+example : (match marshalDynamic [.orStamp, .truncate 128 128, .replaceAll 47 [95], .append [46, 106, 115, 111, 110], .mark]
       (fun _ : Bytes => Json.null) id (fun _ => [49]) [] [[97, 47, 98], [97, 95, 98]] with
     | some d => d.length | none => 0) = 1 := by decide +kernel
 example : fileName [.orStamp, .truncate 128 128, .replaceAll 47 [95], .append [46, 106, 115, 111, 110]] [] []
@@ -439,9 +447,9 @@ example : fileName [.orStamp, .truncate 128 128, .replaceAll 47 [95], .append [4
 /-- the operations BEFORE the NUL repair are not `opsOK`, and a NUL byte in a name made the dump fail (defect `dynnul`,
 repaired); with the regenerated operations `a\0b`, `a/b`, `a_b`, a name of only such bytes and a name longer than
 `MaxFilePath` ending in them all get files of their own -/
-example : opsOK [.orStamp, .truncate 128 128, .replaceAll 47 [95], .append [46, 106, 115, 111, 110], .unique]
+example : opsOK [.orStamp, .truncate 128 128, .replaceAll 47 [95], .append [46, 106, 115, 111, 110], .unique, .mark]
       Gen.ConfigDir.readExt = false ∧
-    (marshalDynamic [.orStamp, .truncate 128 128, .replaceAll 47 [95], .append [46, 106, 115, 111, 110], .unique]
+    (marshalDynamic [.orStamp, .truncate 128 128, .replaceAll 47 [95], .append [46, 106, 115, 111, 110], .unique, .mark]
       (fun _ : Bytes => Json.null) id (fun _ => [49]) [] [[97, 0, 98]]).isNone = true := by decide +kernel
 example : (match marshalDynamic Gen.ConfigDir.clusterNameOps (fun _ : Bytes => Json.null) id (fun _ => [49]) []
       [[97, 0, 98], [97, 47, 98], [97, 95, 98], [0, 47, 0]] with
@@ -454,9 +462,9 @@ example : (match marshalDynamic Gen.ConfigDir.vhostNameOps (fun _ : Bytes => Jso
     [(135, [97, 95, 95, 49, 46, 106, 115, 111, 110]), (133, [97, 95, 46, 106, 115, 111, 110])] := by decide +kernel
 
 /-- appending the extension BEFORE the truncation is not `opsOK`: a name of 124 bytes gets the extension `.jso` -/
-example : opsOK [.orStamp, .replaceAll 47 [95], .append [46, 106, 115, 111, 110], .truncate 128 128, .unique]
+example : opsOK [.orStamp, .replaceAll 47 [95], .append [46, 106, 115, 111, 110], .truncate 128 128, .unique, .mark]
       Gen.ConfigDir.readExt = false ∧
-    ext (fileName [.orStamp, .replaceAll 47 [95], .append [46, 106, 115, 111, 110], .truncate 128 128, .unique] [] []
+    ext (fileName [.orStamp, .replaceAll 47 [95], .append [46, 106, 115, 111, 110], .truncate 128 128, .unique, .mark] [] []
       (List.replicate 124 97)) = [46, 106, 115, 111] := by decide +kernel
 
 end Directory
